@@ -297,6 +297,7 @@ def _steps(tier, prop=""):
 BASE_RULE = ("tour: TLC enumerates every abstract file reachable by <= %d construction steps (messages in pre-order, enums, "
              "fields of 5-10 scalar/message/enum shapes -- message/enum fields and extensions also with `type` omitted --, groups, "
              "editions group-like fields, group-like fields whose json_name lower-cases to another field's JSON name (both orders), "
+             "fields declared with a zero-value default (\"\", 0, false), "
              "maps, oneofs, proto3 optional, defaults, json names, packed, "
              "lazy, reserved and extension ranges, extensions, services, feature overrides) from empty proto2 / proto3 / "
              "edition 2023 (+ file-level overrides) files; ")
@@ -347,10 +348,13 @@ def c35(res, tier, seed):
     t.add(b, "mutants", 160 if tier == "quick" else 30000, seed, want="snap")
     t.add(b, "fuzz", 160 if tier == "quick" else 30000, seed + 1)
     t.finish()
-    res.rule = (BASE_RULE % s + "plus, from each, every applicable one of ~112 invalidity injections (duplicate names/numbers, "
+    res.rule = (BASE_RULE % s + "plus, from each, every applicable one of ~110 invalidity injections (duplicate names/numbers, "
                 "invalid/overlapping ranges, reserved names/numbers, extension-range clashes, malformed maps/groups, oneof "
                 "defects, proto3-forbidden constructs, unresolvable references, packed/enum/presence combinations), under both "
                 "AllowUnresolvable settings: the base must be accepted, the injected file rejected, NewFile must never panic; "
+                "for ranges every relative position of two ranges on a grid around a fixed range's ends (reserved x reserved, "
+                "extension x extension, reserved x extension, extension x reserved, enum reserved; both list orders): overlapping "
+                "(inclusive ends) => rejected, apart or touching => accepted; "
                 "driver: random abstract-level mutants (defect => rejected; accepted => Views and view laws) and reflective "
                 "random edits of the rendered proto (no panic; accepted => view laws); " + DISTINCT_RULE)
     res.notes.append("acceptance of duplicate json_name and of field numbers 19000-19999 is not judged (not in the property's list)")
